@@ -56,6 +56,8 @@ var c20Templates = []struct{ name, code string }{
 	{"assign-member", "t = %s; r = \"ok\"; try { t.z = 9; r = t } catch e { r = \"E\" }"},
 	{"delete", "t = %s; r = \"ok\"; try { delete(t, \"k\"); r = t } catch e { r = \"E\" }"},
 	{"defer", "r = \"ok\"; try { func() { defer %s(1) }() } catch e { r = \"E\" }"},
+	{"member-K", "r = (%s.K) ?? \"E\""}, {"addr-member", "t = %s; p = &t; r = (p.k) ?? \"E\""}, {"addr-member-K", "t = %s; p = &t; r = (p.K) ?? \"E\""},
+	{"addr-deref", "t = %s; p = &t; r = (*p == t) ?? \"E\""},
 	{"delete-flag", "gq = 1; func() { delete(\"gq\", %s) }(); r = (gq ?? \"gone\")"},
 	{"make-type", "r = \"ok\"; try { make(type TQ, %s); r = [make(TQ)] } catch e { r = \"E\" }"},
 	{"defer-arg", "r = 0; func() { defer func(a) { r = [a] }(%s) }(); r"}, {"defer-go-arg", "r = 0; func() { defer probe(%s) }(); r"},
@@ -99,13 +101,16 @@ type c20Prog struct {
 
 // values of named non-struct Go types that carry methods, and what is done with them; these programs
 // are judged on the implementation alone (tag impl-only): the model has no such values
-var c20MethodValues = []struct{ name, lit string }{{"duration", "mkdur()"}, {"urlvalues", "mkvals()"}, {"intslice", "mkints()"}, {"durptr", "mkptr()"}}
+var c20MethodValues = []struct{ name, lit string }{{"duration", "mkdur()"}, {"urlvalues", "mkvals()"}, {"intslice", "mkints()"}, {"durptr", "mkptr()"}, {"array", "mkarr()"}, {"arrayofslices", "mkarrs()"}}
 var c20MethodTemplates = []struct{ name, code string }{
 	{"m-String", "r = (%s.String()) ?? \"E\""}, {"m-Get", "r = (%s.Get(\"k\")) ?? \"E\""}, {"m-Len", "r = (%s.Len()) ?? \"E\""},
 	{"m-Seconds", "r = (%s.Seconds()) ?? \"E\""}, {"m-Encode", "r = (%s.Encode()) ?? \"E\""}, {"m-value", "f = %s.String; r = f() ?? \"E\""},
 	{"m-len", "r = len(%s) ?? \"E\""}, {"m-index", "r = (%s[0]) ?? \"E\""}, {"m-key", "r = (%s[\"k\"]) ?? \"E\""}, {"m-member", "r = (%s.k) ?? \"E\""},
 	{"m-forin", "r = []; try { for x in %s { r += x } } catch e { r = \"E\" }"}, {"m-add", "r = (%s + 1) ?? \"E\""}, {"m-tostr", "r = (\"\" + %s) ?? \"E\""},
 	{"m-eq", "r = (%s == v) ?? \"E\""}, {"m-arg", "r = probe(%s)"}, {"m-deref", "r = \"ok\"; try { r = *%s } catch e { r = \"E\" }"},
+	{"m-slice", "r = (%s[1:]) ?? \"E\""}, {"m-slice-hi", "r = (%s[:2]) ?? \"E\""}, {"m-slice3", "r = (%s[0:1:2]) ?? \"E\""}, {"m-append", "r = (%s + [9]) ?? \"E\""},
+	{"m-append-l", "r = ([9] + %s) ?? \"E\""}, {"m-in", "r = (2 in %s) ?? \"E\""}, {"m-spread", "r = hvar(%s...) ?? \"E\""}, {"m-keys-like", "r = []; try { for k, x in %s { r += x } } catch e { r = \"E\" }"},
+	{"m-store", "t = %s; r = \"ok\"; try { t[0] = 9; r = t } catch e { r = \"E\" }"},
 }
 
 // operations on typed make and channels (no model): sizes, send operands, channel operands
@@ -132,7 +137,7 @@ var c20ImplValues = []struct{ name, lit string }{
 var c20TypedNils = []struct{ name, lit string }{
 	{"nilptr", "make(struct { A *int64 }).A"}, {"nilmap", "make(struct { A map[string]int64 }).A"}, {"nilslice", "make(struct { A []int64 }).A"},
 	{"nilfunc", "make(struct { A func(int64) int64 }).A"}, {"niliface", "make(struct { A interface }).A"},
-	{"typedzero", "make(struct { A int32 }).A"}, {"emptystruct", "make(struct { A struct { B int64 } }).A"},
+	{"typedzero", "make(struct { A int32 }).A"}, {"emptystruct", "make(struct { A struct { B int64 } }).A"}, {"structval", "make(struct { K int64, L []int64 })"},
 }
 
 func c20TypedNilPrograms(sample *Rand) []c20Prog {
